@@ -477,9 +477,10 @@ fn c01_wire_pawn(white: bool) {
     let s1: (u8, u8, u8) = kani::any();
     let s2: (u8, u8, u8) = kani::any();
     kani::assume(s1.0 < 64 && s1.1 < 64 && s2.0 < 64 && s2.1 < 64 && s1.2 <= 6 && s2.2 <= 6);
-    // S1 stays off the promotion rank, S2 lands on it
-    let last = if white { 7 } else { 0 };
-    kani::assume(s1.1 / 8 != last && s2.1 / 8 == last);
+    // S1 stays off the promotion rank, S2 lands on it. The destination squares are concrete so that the
+    // partition in generate_pawn_moves has concrete list lengths (SmallVecs of symbolic length are what
+    // makes CBMC's encoding explode); origins and capture tags stay symbolic.
+    let (s1, s2) = if white { ((s1.0, 20u8, s1.2), (s2.0, 59u8, s2.2)) } else { ((s1.0, 43u8, s1.2), (s2.0, 3u8, s2.2)) };
     unsafe {
         pwire::PM = kani::any();
         pwire::PA = kani::any();
@@ -588,3 +589,531 @@ fn m5_tables_wired() {
     assert!(t.verif_knight_entry(sq as usize) == rf::knight_attacks(sq), "Targets.knights is the knight table");
     core::mem::forget(t);
 }
+
+// vacuity witnesses
+#[kani::proof]
+#[kani::unwind(8)]
+#[kani::stub(::smallvec::SmallVec::reserve_one_unchecked, stub_no_spill)]
+#[kani::stub(::smallvec::SmallVec::spilled, crate::move_generator::verif_never_spilled)]
+#[kani::stub(::smallvec::SmallVec::try_grow, crate::move_generator::verif_no_grow)]
+#[kani::stub(crate::move_generator::targets::Targets::generate_attack_targets, crate::move_generator::targets::Targets::stub_attack)]
+fn witness_c01_castle_w() {
+    c01_castle(true);
+    assert!(false, "vacuity witness");
+}
+
+#[kani::proof]
+#[kani::unwind(8)]
+#[kani::stub(::smallvec::SmallVec::reserve_one_unchecked, stub_no_spill)]
+#[kani::stub(::smallvec::SmallVec::spilled, crate::move_generator::verif_never_spilled)]
+#[kani::stub(::smallvec::SmallVec::try_grow, crate::move_generator::verif_no_grow)]
+fn witness_c01_ep_b() {
+    c01_ep(false);
+    assert!(false, "vacuity witness");
+}
+
+// -------------------------------------------------------------------------------------------------
+// list builders (thorough tier). Shapes: `full` = fully symbolic Disjoint board with a piece-count bound
+// on the listed pieces; the lists stay within their inline capacity under that bound (a spill is a failure).
+
+fn fwd(p: u64, white: bool) -> u64 {
+    if white { p << 8 } else { p >> 8 }
+}
+
+/// C01.pawn (pushes): generate_pawn_move_targets == {(p, single|double) : own pawn p with a non-empty set}
+fn c01_pawn_targets(white: bool, max_pawns: u32) {
+    let x = any_disjoint();
+    let own = x.own(white);
+    kani::assume(own[rf::P] & (rf::RANK_1 | rf::RANK_8) == 0);
+    kani::assume(own[rf::P].count_ones() <= max_pawns);
+    let a = any_aux(kani::any());
+    let board = Board::verif_from_raw(&x, &a);
+    let occ = x.occ();
+    let pt = generate_pawn_move_targets(&board, color(white));
+    let home = if white { rf::RANK_2 } else { rf::RANK_7 };
+    let want = |p: u64| -> u64 {
+        let single = fwd(p, white) & !occ;
+        let dbl = if p & home != 0 && single != 0 { fwd(fwd(p, white), white) & !occ } else { 0 };
+        single | dbl
+    };
+    assert!(pt.len() <= max_pawns as usize);
+    let i: usize = kani::any();
+    if i < pt.len() {
+        let (p, t) = pt[i];
+        assert!(rf::one_hot(p.0) && p.0 & own[rf::P] != 0, "every entry belongs to an own pawn");
+        assert!(t.0 == want(p.0) && t.0 != 0, "targets == single push to an empty square, plus the double push from the home rank through two empty squares");
+        if i + 1 < pt.len() {
+            assert!(pt[i + 1].0 .0 > p.0, "entries are distinct (ascending squares)");
+        }
+    }
+    // completeness: every own pawn that has a push is listed
+    let s: u8 = kani::any();
+    kani::assume(s < 64);
+    let sq = rf::bit(s);
+    if own[rf::P] & sq != 0 && want(sq) != 0 {
+        let mut found = false;
+        let mut j = 0;
+        while j < 8 {
+            if j < pt.len() && pt[j].0 .0 == sq {
+                found = true;
+            }
+            j += 1;
+        }
+        assert!(found, "every own pawn with a push available is listed");
+    }
+    core::mem::forget(pt);
+    core::mem::forget(board);
+}
+
+/// A1.pawn / C01.pawn (captures): generate_pawn_attack_targets == {(p, two forward diagonals, no wrap)}
+fn c01_pawn_attacks(white: bool, max_pawns: u32) {
+    let x = any_disjoint();
+    let own = x.own(white);
+    kani::assume(own[rf::P] & (rf::RANK_1 | rf::RANK_8) == 0);
+    kani::assume(own[rf::P].count_ones() <= max_pawns);
+    let a = any_aux(kani::any());
+    let board = Board::verif_from_raw(&x, &a);
+    let mut pt: PieceTargetList = smallvec![];
+    generate_pawn_attack_targets(&mut pt, &board, color(white));
+    assert!(pt.len() == own[rf::P].count_ones() as usize, "one entry per own pawn");
+    let i: usize = kani::any();
+    if i < pt.len() {
+        let (p, t) = pt[i];
+        assert!(rf::one_hot(p.0) && p.0 & own[rf::P] != 0);
+        assert!(t.0 == rf::pawn_attacks(p.0.trailing_zeros() as u8, white), "attack set == the two forward diagonals, no wrap across the a/h files");
+        if i + 1 < pt.len() {
+            assert!(pt[i + 1].0 .0 > p.0, "entries are distinct (ascending squares)");
+        }
+    }
+    core::mem::forget(pt);
+    core::mem::forget(board);
+}
+
+/// C01.expand: one Standard move per target bit, capture tag == enemy piece on the target, appended
+fn c01_expand(white: bool) {
+    let x = any_disjoint();
+    let a = any_aux(kani::any());
+    let board = Board::verif_from_raw(&x, &a);
+    let own_occ = rf::occ6(x.own(white));
+    let s: u8 = kani::any();
+    kani::assume(s < 64);
+    let tg: u64 = kani::any();
+    kani::assume(tg.count_ones() <= 27 && tg & own_occ == 0);
+    let mut pt: PieceTargetList = smallvec![];
+    pt.push((Bitboard(rf::bit(s)), Bitboard(tg)));
+    let mut moves = ChessMoveList::new();
+    let pre = wire::marker(0);
+    moves.push(pre.clone());
+    expand_piece_targets(&mut moves, &board, color(white), pt);
+    assert!(moves.len() == 1 + tg.count_ones() as usize, "one move per target square, appended to the list");
+    assert!(moves[0] == pre);
+    let i: usize = kani::any();
+    if i >= 1 && i < moves.len() {
+        let m = &moves[i];
+        assert!(matches!(m, ChessMove::Standard(_)));
+        assert!(m.from_square().0 == rf::bit(s));
+        let to = m.to_square().0;
+        assert!(rf::one_hot(to) && to & tg != 0, "destination is one of the target squares");
+        let ck = rf::kind_at(x.opp(white), to);
+        let cap = if ck < 6 { Some(Capture(piece_of(ck))) } else { None };
+        assert!(m.captures() == cap, "capture tag == the enemy piece standing on the destination");
+        if i + 1 < moves.len() {
+            assert!(moves[i + 1].to_square().0 > to, "no duplicates (ascending destinations)");
+        }
+    }
+    core::mem::forget(moves);
+    core::mem::forget(board);
+}
+
+/// C01.slider / A1.slider (k-piece shape): colour c has its king and up to 3 further pieces of symbolic
+/// kind on symbolic squares; the opponent's side is fully symbolic. Lookups are uninterpreted per-square
+/// functions R[sq], B[sq]. Emitted: (sq, (R|B|R∪B)[sq] & !own) for exactly c's rooks/bishops/queens.
+fn c01_slider(white: bool) {
+    crate::move_generator::magic_table::kani_uf::init();
+    let opp: [u64; 6] = kani::any();
+    let mut own = [0u64; 6];
+    let ksq: u8 = kani::any();
+    kani::assume(ksq < 64);
+    own[rf::K] = rf::bit(ksq);
+    let mut i = 0;
+    while i < 3 {
+        let present: bool = kani::any();
+        let sq: u8 = kani::any();
+        let kind: u8 = kani::any();
+        kani::assume(sq < 64 && kind < 5);
+        if present {
+            kani::assume(rf::occ6(&own) & rf::bit(sq) == 0);
+            own[kind as usize] |= rf::bit(sq);
+        }
+        i += 1;
+    }
+    let x = if white { Raw { w: own, b: opp, ep: 0, rights: 0 } } else { Raw { w: opp, b: own, ep: 0, rights: 0 } };
+    kani::assume(rf::disjoint(&x));
+    let a = any_aux(kani::any());
+    let board = Board::verif_from_raw(&x, &a);
+    let t = Targets::verif_blank();
+    let mut pt: PieceTargetList = smallvec![];
+    t.generate_sliding_targets(&mut pt, &board, color(white));
+    let sliders = own[rf::B] | own[rf::R] | own[rf::Q];
+    let own_occ = rf::occ6(&own);
+    assert!(pt.len() == sliders.count_ones() as usize, "one entry per own rook / bishop / queen, nothing for other pieces");
+    let j: usize = kani::any();
+    if j < pt.len() {
+        let (p, tg) = pt[j];
+        assert!(rf::one_hot(p.0) && p.0 & sliders != 0);
+        let s = p.0.trailing_zeros() as usize;
+        let r = crate::move_generator::magic_table::kani_uf::r(s);
+        let b = crate::move_generator::magic_table::kani_uf::b(s);
+        let raw = if p.0 & own[rf::R] != 0 { r } else if p.0 & own[rf::B] != 0 { b } else { r | b };
+        assert!(tg.0 == raw & !own_occ, "targets == lookup(square) minus own pieces; queen = rook lookup | bishop lookup");
+        if j + 1 < pt.len() {
+            assert!(pt[j + 1].0 .0 > p.0);
+        }
+    }
+    if pt.len() > 0 {
+        assert!(crate::move_generator::magic_table::kani_uf::occ_seen() == x.occ(), "lookups are given the whole-board occupancy");
+        assert!(crate::move_generator::magic_table::kani_uf::occ_consistent());
+    }
+    core::mem::forget(pt);
+    core::mem::forget(t);
+    core::mem::forget(board);
+}
+
+/// C01.leaper: generate_targets_from_precomputed_tables with uninterpreted tables K[sq], N[sq]:
+/// emitted == {(sq, table[sq] & !own) : sq holds that piece, set non-empty}; k-piece shape (<=3 of the piece)
+fn c01_leaper(white: bool, knight: bool) {
+    let kt: [u64; 64] = kani::any();
+    let nt: [u64; 64] = kani::any();
+    let x = any_disjoint();
+    let own = x.own(white);
+    let which = if knight { rf::N } else { rf::K };
+    kani::assume(own[which].count_ones() <= 3);
+    let a = any_aux(kani::any());
+    let board = Board::verif_from_raw(&x, &a);
+    let t = Targets::verif_with_tables(kt, nt);
+    let mut pt: PieceTargetList = smallvec![];
+    t.generate_targets_from_precomputed_tables(&mut pt, &board, color(white), if knight { Piece::Knight } else { Piece::King });
+    let own_occ = rf::occ6(own);
+    let tab = |s: usize| if knight { nt[s] } else { kt[s] };
+    assert!(pt.len() <= 3);
+    let j: usize = kani::any();
+    if j < pt.len() {
+        let (p, tg) = pt[j];
+        assert!(rf::one_hot(p.0) && p.0 & own[which] != 0, "entry belongs to an own piece of the requested kind");
+        assert!(tg.0 == tab(p.0.trailing_zeros() as usize) & !own_occ && tg.0 != 0, "targets == table entry minus own pieces");
+        if j + 1 < pt.len() {
+            assert!(pt[j + 1].0 != p, "no duplicates");
+        }
+    }
+    let s: u8 = kani::any();
+    kani::assume(s < 64);
+    if own[which] & rf::bit(s) != 0 && tab(s as usize) & !own_occ != 0 {
+        let mut found = false;
+        let mut k = 0;
+        while k < 3 {
+            if k < pt.len() && pt[k].0 .0 == rf::bit(s) {
+                found = true;
+            }
+            k += 1;
+        }
+        assert!(found, "every own piece of the kind with a non-empty target set is listed");
+    }
+    core::mem::forget(pt);
+    core::mem::forget(t);
+    core::mem::forget(board);
+}
+
+macro_rules! list_harness {
+    ($name:ident, $unwind:expr, $body:expr) => {
+        #[kani::proof]
+        #[kani::unwind($unwind)]
+        #[kani::stub(::smallvec::SmallVec::reserve_one_unchecked, stub_no_spill)]
+        #[kani::stub(::smallvec::SmallVec::spilled, crate::move_generator::verif_never_spilled)]
+        #[kani::stub(::smallvec::SmallVec::try_grow, crate::move_generator::verif_no_grow)]
+        #[kani::stub(crate::move_generator::magic_table::MagicTable::get_rook_targets, crate::move_generator::magic_table::MagicTable::uf_rook)]
+        #[kani::stub(crate::move_generator::magic_table::MagicTable::get_bishop_targets, crate::move_generator::magic_table::MagicTable::uf_bishop)]
+        fn $name() {
+            $body;
+        }
+    };
+}
+list_harness!(c01_pawn_targets_w, 66, c01_pawn_targets(true, 8));
+list_harness!(c01_pawn_targets_b, 66, c01_pawn_targets(false, 8));
+list_harness!(c01_pawn_attacks_w, 66, c01_pawn_attacks(true, 8));
+list_harness!(c01_pawn_attacks_b, 66, c01_pawn_attacks(false, 8));
+list_harness!(c01_expand_w, 30, c01_expand(true));
+list_harness!(c01_expand_b, 30, c01_expand(false));
+list_harness!(c01_slider_w, 66, c01_slider(true));
+list_harness!(c01_slider_b, 66, c01_slider(false));
+list_harness!(c01_leaper_knight_w, 66, c01_leaper(true, true));
+list_harness!(c01_leaper_knight_b, 66, c01_leaper(false, true));
+list_harness!(c01_leaper_king_w, 66, c01_leaper(true, false));
+list_harness!(c01_leaper_king_b, 66, c01_leaper(false, false));
+
+// ---- A1.union: generate_attack_targets ORs the target sets of its four builders, all for the requested colour
+
+pub(crate) mod a1u {
+    use super::*;
+    pub static mut E: [(u64, u64); 4] = [(0, 0); 4];
+    pub static mut CALLS: [u8; 4] = [0; 4];
+    pub static mut COLOR_OK: bool = true;
+    pub static mut WANT_WHITE: bool = true;
+    fn col(c: Color) {
+        unsafe {
+            if (c == Color::White) != WANT_WHITE {
+                COLOR_OK = false;
+            }
+        }
+    }
+    pub fn pawn(l: &mut PieceTargetList, _b: &Board, c: Color) {
+        col(c);
+        unsafe {
+            CALLS[0] += 1;
+            l.push((Bitboard(E[0].0), Bitboard(E[0].1)));
+        }
+    }
+    impl Targets {
+        pub fn a1u_sliding(&self, l: &mut PieceTargetList, _b: &Board, c: Color) {
+            col(c);
+            unsafe {
+                CALLS[1] += 1;
+                l.push((Bitboard(E[1].0), Bitboard(E[1].1)));
+            }
+        }
+        pub fn a1u_table(&self, l: &mut PieceTargetList, _b: &Board, c: Color, piece: Piece) {
+            col(c);
+            unsafe {
+                let i = if piece == Piece::Knight { 2 } else { 3 };
+                CALLS[i] += 1;
+                l.push((Bitboard(E[i].0), Bitboard(E[i].1)));
+            }
+        }
+    }
+}
+
+fn a1_union(white: bool) {
+    let x = any_disjoint();
+    let a = any_aux(kani::any());
+    let board = Board::verif_from_raw(&x, &a);
+    let e: [(u64, u64); 4] = kani::any();
+    unsafe {
+        a1u::E = e;
+        a1u::CALLS = [0; 4];
+        a1u::COLOR_OK = true;
+        a1u::WANT_WHITE = white;
+    }
+    let mut t = Targets::verif_blank();
+    let got = t.generate_attack_targets(&board, color(white));
+    unsafe {
+        assert!(a1u::CALLS[0] == 1 && a1u::CALLS[1] == 1 && a1u::CALLS[2] == 1 && a1u::CALLS[3] == 1, "pawn, slider, knight and king builders each run once");
+        assert!(a1u::COLOR_OK, "all builders are asked about the requested colour");
+    }
+    assert!(got.0 == e[0].1 | e[1].1 | e[2].1 | e[3].1, "attack map == union of all target sets");
+    core::mem::forget(t);
+    core::mem::forget(board);
+}
+
+macro_rules! a1u_harness {
+    ($name:ident, $white:expr) => {
+        #[kani::proof]
+        #[kani::unwind(8)]
+        #[kani::stub(::smallvec::SmallVec::reserve_one_unchecked, stub_no_spill)]
+        #[kani::stub(::smallvec::SmallVec::spilled, crate::move_generator::verif_never_spilled)]
+        #[kani::stub(::smallvec::SmallVec::try_grow, crate::move_generator::verif_no_grow)]
+        #[kani::stub(crate::move_generator::targets::generate_pawn_attack_targets, crate::move_generator::kani_verif::a1u::pawn)]
+        #[kani::stub(crate::move_generator::targets::Targets::generate_sliding_targets, crate::move_generator::targets::Targets::a1u_sliding)]
+        #[kani::stub(crate::move_generator::targets::Targets::generate_targets_from_precomputed_tables, crate::move_generator::targets::Targets::a1u_table)]
+        fn $name() {
+            a1_union($white);
+        }
+    };
+}
+a1u_harness!(a1_union_w, true);
+a1u_harness!(a1_union_b, false);
+
+// -------------------------------------------------------------------------------------------------
+// C06.effect: move annotation. The verdict functions are replaced by recorders returning arbitrary answers.
+
+pub(crate) mod vstub {
+    use super::*;
+    pub static mut CM: bool = false;
+    pub static mut CK: bool = false;
+    pub static mut CM_CALLS: u8 = 0;
+    pub static mut CK_CALLS: u8 = 0;
+    pub static mut PLAYER_OK: bool = true;
+    pub static mut WANT_PLAYER_WHITE: bool = true;
+    pub static mut OCC_OK: bool = true;
+    pub static mut WANT_OCC: u64 = 0;
+    fn note(board: &Board, player: Color) {
+        unsafe {
+            if (player == Color::White) != WANT_PLAYER_WHITE {
+                PLAYER_OK = false;
+            }
+            if board.occupied().0 != WANT_OCC {
+                OCC_OK = false;
+            }
+        }
+    }
+    pub fn checkmate(board: &mut Board, _mg: &mut MoveGenerator, player: Color) -> bool {
+        note(board, player);
+        unsafe {
+            CM_CALLS += 1;
+            CM
+        }
+    }
+    pub fn check(board: &Board, _mg: &mut MoveGenerator, player: Color) -> bool {
+        note(board, player);
+        unsafe {
+            CK_CALLS += 1;
+            CK
+        }
+    }
+    pub static mut GEN_EMPTY: bool = false;
+    impl MoveGenerator {
+        /// stand-in for generate_moves inside the annotation harnesses (the real one goes through the LRU cache)
+        pub fn vstub_generate(&mut self, _board: &mut Board, _player: Color) -> ChessMoveList {
+            let mut l = ChessMoveList::new();
+            unsafe {
+                if !GEN_EMPTY {
+                    l.push(wire::marker(0));
+                }
+            }
+            l
+        }
+        pub fn vstub_attack(&mut self, _board: &Board, _player: Color) -> Bitboard {
+            Bitboard(kani::any())
+        }
+    }
+}
+
+fn c06_effect(white: bool, kind: u8) {
+    let x = any_repinv(white);
+    let a = any_aux(kani::any());
+    kani::assume(a.half[1] < 255 && a.full < 255);
+    let m = any_rmove(kind);
+    kani::assume(rf::legalish(&x, white, &m));
+    let mut board = Board::verif_from_raw(&x, &a);
+    let mut em = engine_move(&x, white, &m);
+    let want = rf::successor(&x, white, &m);
+    let cm: bool = kani::any();
+    let ck: bool = kani::any();
+    unsafe {
+        vstub::CM = cm;
+        vstub::CK = ck;
+        vstub::CM_CALLS = 0;
+        vstub::CK_CALLS = 0;
+        vstub::PLAYER_OK = true;
+        vstub::OCC_OK = true;
+        vstub::WANT_PLAYER_WHITE = !white;
+        vstub::WANT_OCC = want.occ();
+        vstub::GEN_EMPTY = kani::any();
+    }
+    let mut mg = MoveGenerator::verif_blank();
+    // the annotation loop passes the mover's opponent
+    let eff = mg.lazily_calculate_chess_move_effect(&mut em, &mut board, color(!white));
+    let expect = if cm { ChessMoveEffect::Checkmate } else if ck { ChessMoveEffect::Check } else { ChessMoveEffect::None };
+    assert!(eff == expect, "Checkmate if the opponent is mated, else Check if in check, else None");
+    assert!(em.effect() == expect, "the annotation is stored on the move");
+    unsafe {
+        assert!(vstub::CM_CALLS >= 1, "the verdict is asked");
+        assert!(vstub::PLAYER_OK, "the verdicts are asked about the opponent of the mover");
+        assert!(vstub::OCC_OK, "the verdicts are asked on the position the move produces");
+    }
+    assert!(raw_eq(&board.verif_raw(), &x), "annotation leaves the board as found");
+    assert!(board.verif_move_info().verif_depths() == (2, 2, 2));
+    assert!(board.halfmove_clock() == a.half[1]);
+    core::mem::forget(mg);
+    core::mem::forget(board);
+}
+
+macro_rules! effect_harness {
+    ($name:ident, $white:expr, $kind:expr) => {
+        #[kani::proof]
+        #[kani::unwind(8)]
+        #[kani::stub(crate::evaluate::player_is_in_checkmate, crate::move_generator::kani_verif::vstub::checkmate)]
+        #[kani::stub(crate::evaluate::player_is_in_check, crate::move_generator::kani_verif::vstub::check)]
+        #[kani::stub(::smallvec::SmallVec::reserve_one_unchecked, stub_no_spill)]
+        #[kani::stub(::smallvec::SmallVec::spilled, crate::move_generator::verif_never_spilled)]
+        #[kani::stub(::smallvec::SmallVec::try_grow, crate::move_generator::verif_no_grow)]
+        #[kani::stub(crate::move_generator::MoveGenerator::generate_moves, crate::move_generator::MoveGenerator::vstub_generate)]
+        #[kani::stub(crate::move_generator::MoveGenerator::get_attack_targets, crate::move_generator::MoveGenerator::vstub_attack)]
+        fn $name() {
+            c06_effect($white, $kind);
+        }
+    };
+}
+effect_harness!(c06_effect_std_w, true, 0);
+effect_harness!(c06_effect_std_b, false, 0);
+effect_harness!(c06_effect_promo_w, true, 1);
+effect_harness!(c06_effect_promo_b, false, 1);
+effect_harness!(c06_effect_ep_w, true, 2);
+effect_harness!(c06_effect_ep_b, false, 2);
+effect_harness!(c06_effect_oo_w, true, 3);
+effect_harness!(c06_effect_oo_b, false, 3);
+effect_harness!(c06_effect_ooo_w, true, 4);
+effect_harness!(c06_effect_ooo_b, false, 4);
+
+/// annotation wiring: every generated move is annotated once, with the opponent of the side that moves
+pub(crate) mod ewire {
+    use super::*;
+    pub static mut CALLS: u8 = 0;
+    pub static mut PLAYER_OK: bool = true;
+    pub static mut WANT_PLAYER_WHITE: bool = true;
+    impl MoveGenerator {
+        pub fn ewire_generate(&mut self, _board: &mut Board, _player: Color) -> ChessMoveList {
+            let mut l = ChessMoveList::new();
+            l.push(wire::marker(0));
+            l.push(wire::marker(1));
+            l
+        }
+        pub fn ewire_effect(&mut self, chess_move: &mut ChessMove, _board: &mut Board, player: Color) -> ChessMoveEffect {
+            unsafe {
+                CALLS += 1;
+                if (player == Color::White) != WANT_PLAYER_WHITE {
+                    PLAYER_OK = false;
+                }
+            }
+            chess_move.set_effect(ChessMoveEffect::Check);
+            ChessMoveEffect::Check
+        }
+    }
+}
+
+fn c06_effect_wire(white: bool) {
+    let x = any_disjoint();
+    let a = any_aux(kani::any());
+    let mut board = Board::verif_from_raw(&x, &a);
+    let mut mg = MoveGenerator::verif_blank();
+    unsafe {
+        ewire::CALLS = 0;
+        ewire::PLAYER_OK = true;
+        ewire::WANT_PLAYER_WHITE = !white;
+    }
+    let out = mg.generate_moves_and_lazily_update_chess_move_effects(&mut board, color(white));
+    unsafe {
+        assert!(ewire::CALLS == 2, "each listed move is annotated exactly once");
+        assert!(ewire::PLAYER_OK, "annotation classifies the opponent of the side to move");
+    }
+    assert!(out.len() == 2 && out[0].effect() == ChessMoveEffect::Check && out[1].effect() == ChessMoveEffect::Check, "the annotated moves are what is returned");
+    assert!(out[0].from_square().0 == 1 && out[1].from_square().0 == 2);
+    core::mem::forget(out);
+    core::mem::forget(mg);
+    core::mem::forget(board);
+}
+
+macro_rules! ewire_harness {
+    ($name:ident, $white:expr) => {
+        #[kani::proof]
+        #[kani::unwind(8)]
+        #[kani::stub(::smallvec::SmallVec::reserve_one_unchecked, stub_no_spill)]
+        #[kani::stub(::smallvec::SmallVec::spilled, crate::move_generator::verif_never_spilled)]
+        #[kani::stub(::smallvec::SmallVec::try_grow, crate::move_generator::verif_no_grow)]
+        #[kani::stub(crate::move_generator::MoveGenerator::generate_moves, crate::move_generator::MoveGenerator::ewire_generate)]
+        #[kani::stub(crate::move_generator::MoveGenerator::lazily_calculate_chess_move_effect, crate::move_generator::MoveGenerator::ewire_effect)]
+        fn $name() {
+            c06_effect_wire($white);
+        }
+    };
+}
+ewire_harness!(c06_effect_wire_w, true);
+ewire_harness!(c06_effect_wire_b, false);
